@@ -298,8 +298,9 @@ def check(ctx, res) -> None:
                     if not pol or not isinstance(t, ast.Compare) or len(t.ops) != 1:
                         continue
                     chars = None
-                    if isinstance(t.ops[0], (ast.In, ast.Eq)) and const_str(t.comparators[0]) is not None:
-                        chars = const_str(t.comparators[0])
+                    cn = idx.const_node(modname, t.comparators[0])  # a literal, or a module-level name of one
+                    if isinstance(t.ops[0], (ast.In, ast.Eq)) and cn is not None and isinstance(cn.value, str):
+                        chars = cn.value
                     if not chars or not set(chars) <= set("()[]{}"):
                         continue
                     (opens if isinstance(st.op, ast.Add) else closes).update(chars)
